@@ -2203,10 +2203,13 @@ class tensor:
         # Will the size change? If so we first need to resize x
         n = self.ndims
         sliceCheck = []
-        for element in subs:
+        for dim, element in enumerate(subs):
             if isinstance(element, slice):
-                if element.stop is None:
-                    # Open ended slice covers the current extent, no growth needed
+                if element.stop is None or (
+                    dim < n and element.step is not None and element.step < 0
+                ):
+                    # An open ended slice covers the current extent, a downward
+                    # slice of an existing mode stays within it: no growth needed
                     sliceCheck.append(0)
                 else:
                     sliceCheck.append(element.stop - 1)
